@@ -140,7 +140,7 @@ pub fn cycle_shapes() -> Vec<(String, String, usize)> {
             };
             let program = |locals: &str, input_extra: &str| {
                 format!(
-                    "type S {{\n    counter: Int,\n    limits: List<Int>,\n}}\nparty P;\ntx t(q: Int, xs: List<Int>) {{\n    locals {{\n{locals}    }}\n    input st {{\n        from: P,\n        datum_is: S,\n        min_amount: Ada(q),\n{input_extra}    }}\n    output {{\n        to: P,\n        amount: st - fees,\n    }}\n}}\n"
+                    "type S {{\n    counter: Int,\n    limits: List<Int>,\n}}\nparty P;\ntx t(q: Int, xs: List<Int>) {{\n    locals {{\n{locals}    }}\n    input st {{\n        from: P,\n        datum_is: S,\n        min_amount: Ada(q),\n{input_extra}    }}\n    output {{\n        to: P,\n        amount: st - fees,\n        datum: a,\n    }}\n}}\n"
                 )
             };
             let mut push = |kind: &str, src: String| out.push((format!("cycle-shape:{kind}:{cname}:{m}"), src, m));
